@@ -364,26 +364,30 @@ theorem Good.congr {α k} {m m' : DM α} (h : ∀ s, run m s = run m' s) (hm : G
   mono := fun s hs => by rw [h]; exact hm.mono s hs
   sim := fun s hs hc => by rw [h, h]; exact hm.sim s hs hc
 
+theorem good_makeWayFor {k} (p) : Good k (makeWayFor p) := by unfold makeWayFor; dm_good
+macro_rules | `(tactic| dm_prim) => `(tactic| with_reducible exact good_makeWayFor _)
+
 /-- `openRejects` with its `set { s with … }` written as a `modify` -/
-def openRejects' (rej : Bytes) : DM Unit := do
+def openRejects' (o : Options) (rej : Bytes) : DM Unit := do
   let s ← get
   if s.rejWritten.contains rej then
     if !(← fsExists rej) then opCreat rej
   else
     modify fun s => { s with rejWritten := s.rejWritten ++ [rej] }
+    if o.rejectFile.isEmpty then makeWayFor rej
     opCreat rej
 
-theorem good_openRejects {k} (rej) : Good k (openRejects rej) := by
-  refine Good.congr (m' := openRejects' rej) (fun s => ?_) (by unfold openRejects'; dm_good)
+theorem good_openRejects {k} (o rej) : Good k (openRejects o rej) := by
+  refine Good.congr (m' := openRejects' o rej) (fun s => ?_) (by unfold openRejects'; dm_good)
   unfold openRejects openRejects'
   simp only [run_bind, run_get]
   split
   · rfl
   · simp only [run_bind, run_set, run_modify]
-macro_rules | `(tactic| dm_prim) => `(tactic| with_reducible exact good_openRejects _)
+macro_rules | `(tactic| dm_prim) => `(tactic| with_reducible exact good_openRejects _ _)
 
-theorem good_writeRejects {k} (rej b) : Good k (writeRejects rej b) := by unfold writeRejects; dm_good
-macro_rules | `(tactic| dm_prim) => `(tactic| with_reducible exact good_writeRejects _ _)
+theorem good_writeRejects {k} (o rej b) : Good k (writeRejects o rej b) := by unfold writeRejects; dm_good
+macro_rules | `(tactic| dm_prim) => `(tactic| with_reducible exact good_writeRejects _ _ _)
 
 theorem good_refuseToPatch {k} (a b c) : Good k (refuseToPatch a b c) := by
   unfold refuseToPatch; dm_good
@@ -432,7 +436,7 @@ def makeBackupFor' (o : Options) (p : Bytes) : DM Unit := do
   if !s.backedUp.contains (backupName o p) then
     modify fun s => { s with backedUp := s.backedUp ++ [backupName o p] }
     ensureParentDirs (backupName o p)
-    if (← fsExists p) then opRename p (backupName o p) else opCreat (backupName o p)
+    if (← fsExists p) then opRename p (backupName o p) else do makeWayFor (backupName o p); opCreat (backupName o p)
 
 theorem good_makeBackupFor {k} (o p) : Good k (makeBackupFor o p) := by
   refine Good.congr (m' := makeBackupFor' o p) (fun s => ?_) (by unfold makeBackupFor'; dm_good)
